@@ -87,6 +87,22 @@ Theorem C11_pool_clean :
 Proof. exact pool_clean. Qed.
 Print Assumptions C11_pool_clean.
 
+(* The history variable behind [committed]: a writer is created by Add with an empty accumulator and its own key; afterwards
+   the key never changes and the accumulator changes only by a Write on that very writer while it is still open, which
+   appends exactly the written bytes (in any state, reachable or not). So the value a committed writer stands for is
+   the concatenation of all its Writes, and nothing written after Commit/Abort counts. *)
+Theorem C11_committed_value_is_concatenation_of_writes :
+  forall (s : st) (o : op) (w : nat) (wr' : writer),
+    nth_error (writers (fst (step s o))) w = Some wr' ->
+    match nth_error (writers s) w with
+    | Some wr => w_key wr' = w_key wr /\
+                 (w_acc wr' = w_acc wr \/
+                  exists bs, o = Write w bs /\ w_status wr = WOpen /\ w_acc wr' = w_acc wr ++ bs)
+    | None => w_acc wr' = [] /\ w_status wr' = WOpen /\ exists k d p, o = Add k d p /\ w_key wr' = k
+    end.
+Proof. exact acc_is_written. Qed.
+Print Assumptions C11_committed_value_is_concatenation_of_writes.
+
 (* MemoryCache: every open reader reads exactly the value a writer committed under its key. *)
 Theorem C11_memcache_hit_is_committed :
   forall (os : list op) (r : nat) (rd : mreader),
